@@ -301,6 +301,41 @@ def _degenerate_cases():
     return out
 
 
+# whole control structures inside handler blocks: a finally block that runs while an exception is pending or while a return is
+# interrupted, and a catch block, each holding two nested constructs with an exit that stays inside them
+IN_HANDLER_CONSTRUCTS = ["for", "forin", "forof", "switch", "sw_df_hit", "label", "trycatch", "tryfinally", "dowhile"]
+IN_HANDLER_PLACES = {
+    "finally-with-pending-exception": "try { try { throw new Error('boom') } finally { %s } } catch (e) { __out(e.message) }",
+    "catch-block": "try { null.x } catch (e) { __out(e.name); %s }",
+    "finally-interrupting-return": "__out((function () { try { return 'ret' } finally { %s } })());",
+    "finally-normal": "try { __out(1) } finally { %s }",
+}
+
+
+def in_handler_programs():
+    for chain in itertools.product(IN_HANDLER_CONSTRUCTS, repeat=2):
+        for ex in ("none", "break", "continue", "lbreak0", "lbreak1", "lcontinue0", "lcontinue1", "throw"):
+            for pos in ("bare", "iter1"):
+                b = inline_body(chain, ex, pos)
+                if b is None or P.early_error([("for", None, "false", None, b)], in_function=True):
+                    continue
+                if "continue" in ex and not any(k in P.LOOPS for k in chain):
+                    continue
+                if ex == "break" and not any(k in P.LOOPS or k in P.SWITCHES for k in chain):
+                    continue        # it would leave the loop of the driver itself
+                if ex == "continue" and chain[-1] not in P.LOOPS and not any(k in P.LOOPS for k in chain):
+                    continue
+                body = P.stmts(b)
+                for place, tmpl in IN_HANDLER_PLACES.items():
+                    src = (P.PRELUDE + "var I = 0; function fn() { for (var qq = 0; I < NN; qq++) { I++; __mark(); " + (tmpl % body) +
+                           " } return 6 } fn(); I")
+                    yield "inhandler|%s|%s|%s|%s" % (">".join(chain), ex, pos, place), src
+
+
+def _in_handler_cases():
+    return [(cid, {"src": src}) for cid, src in in_handler_programs()]
+
+
 def _tryshape_cases(two_deep):
     return [(cid, {"src": src}) for cid, src in tryshape_programs(two_deep)]
 
@@ -395,6 +430,10 @@ def spaces(tier, seed, all_strata=False):
             "expression values, captured catch / loop variables, throws caught in mid-expression) x 5 placements (inline, in a "
             "function used as an operand, below a native frame, twice in one array literal, in a loop inside one activation), 30 iterations with the depth marks and 3 000 iterations under memory_limit = 64 kB" % len(DEGENERATE),
             "%d x 5 x 2" % len(DEGENERATE), nontrivial=lambda cid, p, exp: True),
+        _sp("c02_in_handlers", "run_residue", _in_handler_cases,
+            "every two-level nesting of 9 constructs x 8 exits that stay inside it x 2 positions, written inside a finally block that "
+            "runs with a pending exception, a catch block, a finally block that interrupts a return and an ordinary finally block; the "
+            "loop that repeats it lives inside one activation", "81 x 8 x 2 x 4", nontrivial=lambda cid, p, exp: True),
         _sp("c02_residue_d2", "run_residue", lambda: _residue_cases(2, C2),
             "every two-level nesting of 14 constructs x 9 exit kinds x 3 positions, same three placements", "depth 2",
             nontrivial=_nontrivial),
